@@ -165,11 +165,12 @@ theorem C06_flat_followup_plan {c : PCtx} {ms : List Mut.MSpec} {A B T o : Strin
     * for every root field (the `mᵢ` and `o`) there is EXACTLY ONE (URL, request) pair among all
       requests of all calls, follow-up included, whose request mentions it (`Mut.sentWith`, with
       multiplicity): a `mutation` request at the field's owner.
-    (`'#'`, `':'` do not occur in `o`, `'#'` not in the id: the insertion-point codec, cf.
-    `C01_point_hash_breaks`.) -/
+    (`'#'`, `':'` do not occur in `o`: the insertion-point codec. The id `i` is an arbitrary
+    non-empty string — it may contain `'#'`, the point is cut at the FIRST `'#'`, cf.
+    `C01_point_hash_in_id`.) -/
 theorem C06_flat_followup_is_query {c : PCtx} {ms : List Mut.MSpec} {A B T o : String} {fs : List Flat.FieldSpec}
     (h : MutO.Fam c ms A B T o fs) (hB : Flat.fsB fs ≠ []) (down : Downstream) (i : String)
-    (ho1 : '#' ∉ o.toList) (ho2 : ':' ∉ o.toList) (hone : o ≠ "") (hi : '#' ∉ i.toList) (hine : i ≠ "")
+    (ho1 : '#' ∉ o.toList) (ho2 : ':' ∉ o.toList) (hone : o ≠ "") (hine : i ≠ "")
     (hg : MutO.Good c ms A B T o fs down i) :
     ∃ d roots rq, gateway c {} (MutO.op c ms T o fs) none down = .ok ⟨some d, [], roots ++ [⟨B, [rq]⟩]⟩ ∧
       rq.header.kind = .query ∧
@@ -179,7 +180,7 @@ theorem C06_flat_followup_is_query {c : PCtx} {ms : List Mut.MSpec} {A B T o : S
       (∀ cl ∈ roots, cl.batch.length = 1) ∧ (roots.map (·.url)).Nodup ∧
       (∀ f ∈ MutO.roots ms A T o, ∃ r, Mut.sentWith (roots ++ [⟨B, [rq]⟩]) f.1 = [(f.2.2, r)] ∧
           r.header.kind = .mutation) := by
-  obtain ⟨d, hgw⟩ := MutO.stage_gateway h down i ho1 ho2 hone hi hine hg
+  obtain ⟨d, hgw⟩ := MutO.stage_gateway h down i ho1 ho2 hone hine hg
   have hfu : MutO.followUps c B T o fs i = [⟨B, [MutO.lookupReq c B T o fs i]⟩] := by
     simp [MutO.followUps, hB]
   refine ⟨d, MutO.rootCalls c ms A B T o fs, MutO.lookupReq c B T o fs i, ?_, MutO.lookupReq_kind c B T o fs i,
@@ -194,13 +195,13 @@ theorem C06_flat_followup_is_query {c : PCtx} {ms : List Mut.MSpec} {A B T o : S
     the root calls, all `mutation`s -/
 theorem C06_flat_followup_none {c : PCtx} {ms : List Mut.MSpec} {A B T o : String} {fs : List Flat.FieldSpec}
     (h : MutO.Fam c ms A B T o fs) (hB : Flat.fsB fs = []) (down : Downstream) (i : String)
-    (ho1 : '#' ∉ o.toList) (ho2 : ':' ∉ o.toList) (hone : o ≠ "") (hi : '#' ∉ i.toList) (hine : i ≠ "")
+    (ho1 : '#' ∉ o.toList) (ho2 : ':' ∉ o.toList) (hone : o ≠ "") (hine : i ≠ "")
     (hg : MutO.Good c ms A B T o fs down i) :
     ∃ d roots, gateway c {} (MutO.op c ms T o fs) none down = .ok ⟨some d, [], roots⟩ ∧
       (∀ cl ∈ roots, ∀ r ∈ cl.batch,
           r.header.kind = .mutation ∧ ∀ s ∈ r.sels, c.tum.get? "Mutation" (fieldName s) = some cl.url) ∧
       (∀ f ∈ MutO.roots ms A T o, ∃ r, Mut.sentWith roots f.1 = [(f.2.2, r)] ∧ r.header.kind = .mutation) := by
-  obtain ⟨d, hgw⟩ := MutO.stage_gateway h down i ho1 ho2 hone hi hine hg
+  obtain ⟨d, hgw⟩ := MutO.stage_gateway h down i ho1 ho2 hone hine hg
   have hfu : MutO.followUps c B T o fs i = [] := by simp [MutO.followUps, hB]
   refine ⟨d, MutO.rootCalls c ms A B T o fs, ?_, MutO.rootCalls_own h, ?_⟩
   · rw [hgw, hfu, List.append_nil]
@@ -218,8 +219,8 @@ theorem C06_flat_followup_is_query_instance : ∃ d calls,
     gateway MutO.Example.ctx {} MutO.Example.opEx none MutO.Example.down = .ok ⟨some d, [], calls⟩ ∧
     MutO.Example.summary calls
       = [("B", [(.mutation, ["m2"])]), ("A", [(.mutation, ["m1", "createAnimal"])]), ("B", [(.query, ["node"])])] := by
-  obtain ⟨d, hgw⟩ := MutO.stage_gateway MutO.Example.fam MutO.Example.down "a1" (by decide) (by decide) (by decide)
-    (by decide) (by decide) MutO.Example.good
+  obtain ⟨d, hgw⟩ := MutO.stage_gateway MutO.Example.fam MutO.Example.down "a#1" (by decide) (by decide) (by decide)
+    (by decide) MutO.Example.good
   exact ⟨d, _, hgw, by decide⟩
 
 end PebblesVerif
